@@ -572,8 +572,8 @@ func (fr *FuncRun) enterLoop(f *Frame, head *ssa.BasicBlock, body map[*ssa.Basic
 			eh := w.ElemHeap(st.Elem())
 			for _, v := range vals {
 				a := "(s-arr " + v.T + ")"
-				if invariantTerm(a, marker) {
-					excl[eh] = append(excl[eh], a)
+				if fr.invariant(a, marker) {
+					excl[eh] = append(excl[eh], fr.expandDefs(a, marker))
 				}
 			}
 		}
@@ -584,14 +584,22 @@ func (fr *FuncRun) enterLoop(f *Frame, head *ssa.BasicBlock, body map[*ssa.Basic
 		}
 		framed := true
 		weak := false
+		weakOK := false // weak bound without obligations (the writes are statically known to hit fresh objects)
 		var inv []string
 		seen := map[string]bool{}
 		for _, aw := range alog[h] {
-			if invariantTerm(aw.term, marker) {
-				if !seen[aw.term] {
-					seen[aw.term] = true
-					inv = append(inv, aw.term)
+			if fr.invariant(aw.term, marker) {
+				t := fr.expandDefs(aw.term, marker)
+				if !seen[t] {
+					seen[t] = true
+					inv = append(inv, t)
 				}
+				continue
+			}
+			if aw.fresh && (aw.root == "" || fr.invariant(aw.root, marker)) {
+				// statically fresh (allocated by this function) but not known to be allocated inside the loop:
+				// only the weaker frame (objects of the entry state are unchanged) is justified
+				weakOK = true
 				continue
 			}
 			if !aw.fresh {
@@ -623,6 +631,9 @@ func (fr *FuncRun) enterLoop(f *Frame, head *ssa.BasicBlock, body map[*ssa.Basic
 		}
 		a := fr.freshName("a")
 		bound := topAtEntry
+		if weakOK {
+			bound = "AllocBase"
+		}
 		if weak {
 			bound = "AllocBase"
 			if f.weakLoops == nil {
@@ -648,13 +659,17 @@ func (fr *FuncRun) enterLoop(f *Frame, head *ssa.BasicBlock, body map[*ssa.Basic
 		seen := map[string]bool{}
 		var autos []autoLockInv
 		for _, aw := range alog[hh] {
-			if !invariantTerm(aw.term, marker) || seen[aw.term] {
+			if !fr.invariant(aw.term, marker) {
 				continue
 			}
-			seen[aw.term] = true
-			preVal := fr.def(sInt, sel(fr.heapCur(pre, hh), aw.term))
-			fr.assume(cur, eq(sel(cur.heaps[hh], aw.term), preVal))
-			autos = append(autos, autoLockInv{addr: aw.term, preVal: preVal})
+			at := fr.expandDefs(aw.term, marker)
+			if seen[at] {
+				continue
+			}
+			seen[at] = true
+			preVal := fr.def(sInt, sel(fr.heapCur(pre, hh), at))
+			fr.assume(cur, eq(sel(cur.heaps[hh], at), preVal))
+			autos = append(autos, autoLockInv{addr: at, preVal: preVal})
 		}
 		if f.autoLock == nil {
 			f.autoLock = map[*ssa.BasicBlock][]autoLockInv{}
